@@ -57,6 +57,7 @@ class BoomFrozen(Exception):
 
 
 RAISED = []
+COUNTS = {}
 
 
 def boom(kind, token):
@@ -86,3 +87,11 @@ def boom(kind, token):
         e = getattr(builtins, kind)(token)
     RAISED.append(e)
     raise e
+
+
+def fail_first(name, k, kind):
+    """a source that is unreachable the first k times it is asked (per name), then answers"""
+    COUNTS[name] = COUNTS.get(name, 0) + 1
+    if COUNTS[name] <= k:
+        boom(kind, "%s attempt %d" % (name, COUNTS[name]))
+    return COUNTS[name]
